@@ -676,7 +676,15 @@ pub trait DnsRecordExt: fmt::Debug {
     /// Returns true if another record has matched content,
     /// and if its TTL is at least half of this record's.
     fn suppressed_by_answer(&self, other: &dyn DnsRecordExt) -> bool {
-        self.matches(other) && (other.get_record().ttl > self.get_record().ttl / 2)
+        // RFC 6762 section 7.1: a known answer is this same record, i.e. the same name
+        // (in any letter case), type, class and rdata. The cache-flush bit is not part
+        // of the class (a querier lists its known answers with the bit clear), and
+        // where an address record was learned does not matter.
+        self.get_name().eq_ignore_ascii_case(other.get_name())
+            && self.get_type() == other.get_type()
+            && self.get_class() == other.get_class()
+            && self.rrdata_match(other)
+            && (other.get_record().ttl > self.get_record().ttl / 2)
     }
 
     /// Required by RFC 6762 Section 7.1: Known-Answer Suppression.
